@@ -203,6 +203,16 @@ func checkC12(r *evid.Run) {
 		}
 		checkEntryPoints(r, pool, c.Doc(d.Doc), rs, d.Verdict, hasRootLine(d.Doc))
 	})
+	// every single line of up to 3 tokens (an indented item with text needs three)
+	runDocModel(r, modelRun{Module: "MC_C12", Cfg: "MC_C12_wide1.cfg", Timeout: timeout}, func(d *DocState) {
+		r.Count("distinct_nontrivial", 1)
+		checkEntryPoints(r, pool, c.Doc(d.Doc), routes, d.Verdict, hasRootLine(d.Doc))
+		// ... and the same line after a well-formed root block
+		if len(d.Doc) == 1 {
+			two := c.Doc([][]string{{"HY", "SP", "a"}, {"SP", "SP", "HY", "SP", "a"}, d.Doc[0]})
+			checkEntryPoints(r, pool, two, routes[:7], "grey", false)
+		}
+	})
 	r.Set("exhaustive", true)
 	r.Set("rule", "every document of at most MaxLines lines of at most MaxTok tokens over the full 11-token alphabet, run through every entry point (output text/json/yaml/toml/dry-run, walk, mkdir and mkdir dry-run in a jail, verify) x {simple, massive} in isolated worker processes; plus seeded raw byte strings, byte mutations of valid documents and over-long lines; non-trivial = non-empty document")
 	fuzzBytes(r, pool, routes)
